@@ -205,7 +205,7 @@ pub fn mass_strategy() -> BoxedStrategy<MassSpec> {
         .boxed()
 }
 
-fn mass_image(spec: &MassSpec) -> Vec<u8> {
+pub fn mass_image(spec: &MassSpec) -> Vec<u8> {
     use crate::layout::B;
     let version = spec.version;
     let blocks = 16 + spec.lead as u64 * 3 + spec.pairs as u64 * 4 + 8;
